@@ -434,9 +434,9 @@ def wl_readers(ctx, idx, rng):
                 ctx.unexpected_exception(o, e, f"computing dask_read(chunks={ck})", {"what": "compute_raised", "op": "dask_read_chunks"})
     # pieces read lazily, concatenated and transformed, computed under threads
     c = int(rng.integers(1, n)) if n > 1 else 0
-    for sc in ("synchronous", "threads"):
+    for sc in ("synchronous", "threads") + (("processes",) if (idx // 3) % 4 == 0 else ()):
         try:
-            got = lazy.data.compute(scheduler=sc)
+            got = lazy.data.compute(scheduler=sc, **({"num_workers": 2} if sc == "processes" else {}))
         except Exception as e:
             if isinstance(e, Warning):
                 ctx.count("dependency_warning_raised_as_error")
